@@ -1585,3 +1585,75 @@ _jobs_string = jobs
 
 def jobs(tier):
     return _jobs_string(tier) + [(h_builder_clear, (w, k), 900) for w in ('record', 'tuple') for k in ((0, 2) if tier == 'quick' else (0, 1, 2, 3))]
+
+
+@guard
+def h_string_encoding(n):
+    """StringBuilder::string with an encoding other than the builder's own (a bytestring appended to a builder of utf-8 strings): the value must
+    not be stored among the strings of the other kind - a union takes over, this builder's strings are untouched, and the union's new member
+    holds the bytes under the requested encoding"""
+    from .cpp01 import struct_of
+    mod = module_of(SB)
+    fo, sz, al, fields = mod.types.struct_layout(struct_of(mod, '_ZN7awkward13StringBuilder6stringEPKclS2_'))
+    m = MCtx([SB, UNB, GB, 'src/libawkward/builder/ArrayBuilderOptions.cpp', 'src/libawkward/kernel-dispatch.cpp'], unwind=n + 12, stubs=dict(COMMON_STUBS))
+    C, NO = m.bv('contentlength'), BV(3)          # two earlier strings (the union that takes over gets one tag per earlier string: a loop over their number)
+    m.assume(C >= 0, C <= 2 ** 30)
+    m.record('ctrl', {0: (NULL, 8), 8: (z3.BitVecVal(1, 32), 4), 12: (z3.BitVecVal(1, 32), 4)})
+    st0 = State({}, m.mem, z3.BoolVal(True))
+    vt = m.eng.global_ptr(st0, '@_ZTVN7awkward13StringBuilderE', mod)
+    obuf = m.array('offsets', ('i', 64), NO + 2)
+    cbuf = m.array('content', ('i', 8), C + n + 2)
+    x = m.array('text', ('i', 8), n + 1, const=True)
+    enc = _cstring(m, 'utf8', 'utf-8')
+    cells = {0: (Ptr(vt.obj, 16), 8), 8: (Ptr('sb', 0), 8), 16: (Ptr('ctrl', 0), 8), fo[1]: (BV(8), 8), fo[1] + 8: (z3.FPVal(1.5, z3.Float64()), 8), fo[4]: (enc, 8)}
+    for base, buf, ln, cap in ((fo[2], obuf, NO, NO + 2), (fo[3], cbuf, C, C + n + 2)):
+        cells.update({base: (BV(8), 8), base + 8: (z3.FPVal(1.5, z3.Float64()), 8), base + 16: (buf, 8), base + 24: (NULL, 8), base + 32: (ln, 8), base + 40: (cap, 8)})
+    this = m.record('sb', cells)
+    m.record('ret', {})
+    out = m.call('_ZN7awkward13StringBuilder6stringEPKclS2_', [Ptr('ret', 0), this, x, BV(n), NULL])          # encoding nullptr = bytestring
+    o = out.mem.o['sb']
+    rp = m.cell('ret', 0)
+    same = z3.Or([g for g, q in ptr_cases(rp) if q.obj == 'sb'] + [z3.BoolVal(False)])
+    obls = [('appending a value of the other kind does not raise', out.raised),
+            ('the bytes are not stored among this builder\'s strings', z3.Or(o.cells[fo[3] + 32][0] != C, o.cells[fo[2] + 32][0] != NO)),
+            ('another builder (a union) takes over', z3.And(z3.Not(out.raised), same))]
+
+    def replay(model, ent_):
+        import subprocess, os
+        drv = r'''
+#include <cstdio>
+#include <cstdlib>
+#include <string>
+#include "awkward/builder/ArrayBuilder.h"
+#include "awkward/builder/ArrayBuilderOptions.h"
+#include "awkward/Content.h"
+#include "awkward/type/Type.h"
+using namespace awkward;
+int main(int argc, char** argv) {
+  ArrayBuilder b(ArrayBuilderOptions(8, 1.5));
+  b.string(std::string("abc")); b.bytestring(std::string("xyz"));
+  ContentPtr s = b.snapshot();
+  std::string c = s.get()->classname();
+  int bad = (c.find("UnionArray") == std::string::npos) ? 1 : 0;      // a string and a bytestring are values of two kinds
+  printf("bad=%d class=%s\n", bad, c.c_str());
+  return bad ? 1 : 0;
+}
+'''
+        try:
+            exe = fullnative_link(drv)
+        except Exception as e:      # noqa
+            return False, 'replay driver did not build: %s' % str(e)[-600:], {}
+        r = subprocess.run([exe], capture_output=True, text=True, timeout=30, env=dict(os.environ, ASAN_OPTIONS='detect_leaks=0', UBSAN_OPTIONS='halt_on_error=1:exitcode=87'), errors='replace')
+        payload = dict(native=r.stdout.strip())
+        if r.returncode != 0:
+            return True, 'string("abc") then bytestring("xyz"): the native snapshot is %s - the bytestring was stored as a string' % r.stdout.strip(), payload
+        return False, 'native builders agree (%s)' % r.stdout.strip(), payload
+    return mdischarge(m, 'StringBuilder::string with another encoding, %d bytes' % n, obls, [], replay=replay, prefer=[C <= 4],
+                      extra=dict(bounds='%d bytes, builder encoding utf-8, requested encoding none (bytestring); two earlier strings of any total length' % n))
+
+
+_jobs_clear = jobs
+
+
+def jobs(tier):
+    return _jobs_clear(tier) + [(h_string_encoding, (n,), 900) for n in ((2,) if tier == 'quick' else (0, 2, 3))]
